@@ -10,3 +10,8 @@ import PyIpmi.Props.C01
 #print axioms PyIpmi.Props.C01.bitfield_members_independent
 #print axioms PyIpmi.Props.C01.registry_paired
 #print axioms PyIpmi.Props.C01.cmdKey_injective
+#print axioms PyIpmi.Props.C01.counterpart_key
+#print axioms PyIpmi.Props.C01.pairedFrom_above
+#print axioms PyIpmi.Props.C01.no_counterpart_above
+#print axioms PyIpmi.Props.C01.paired_count
+#print axioms PyIpmi.Props.C01.registry_exactly_one_counterpart
